@@ -3,7 +3,7 @@
 
 #[cfg(feature = "verif")]
 #[allow(unused_imports)]
-use qbice_verif_rt::{std, crossbeam, parking_lot};
+use qbice_verif_rt::{std, crossbeam, parking_lot, scc};
 
 use std::{
     hash::{BuildHasher, Hash},
@@ -431,9 +431,6 @@ impl<
         key: K,
         f: impl FnOnce(Entry<'_, '_, K, V>) -> T,
     ) -> T {
-        #[cfg(feature = "verif")]
-        qbice_verif_rt::point("tiny_lfu_before_entry");
-
         let t = match self.inner.storage.entry_sync(key) {
             scc::hash_map::Entry::Vacant(entry) => {
                 f(Entry::Vacant(VacantEntry {
